@@ -43,7 +43,9 @@ REQUIRED = {'quick': {'evaluations': 1500, 'conversions_compared': 4500, 'conser
 
 HOSTILE = [b" b'x", b"it's", b'say "hi"', b'a = b', b'-> A1', b'###### x', b'<<<<<< s', b'\\', b'\'"',
            b"x b'", b'x b"', b'#', b'3', b'None', b"b''", b'  lead', b'trail  ', b'\\x41', b'\\n', b'1 2',
-           b"' b'", b'" b"', b'(1, [2])', b'\xe9t\xe9', b'\xa0', b'....', b'\t', b'\'']
+           b"' b'", b'" b"', b'(1, [2])', b'\xe9t\xe9', b'\xa0', b'....', b'\t', b'\'',
+           # octet strings that happen to be well-formed multi-byte UTF-8 (they are latin-1 data all the same)
+           b'Z\xc3\xbcRICH', b'\xc3\xa9t\xc3\xa9', b'\xe2\x82\xac5', b'\xc2\xb0C']
 
 SHAPES09 = [
     ('attr-on-factor', [12001, 101000, 31001, 4024, 222000, 101000, 31001, 31031, 101000, 31001, 33007]),
